@@ -83,6 +83,37 @@ structure MsOK (x y : List α) (ms : List (Nat × Nat)) : Prop where
   mono : ms.Pairwise (fun a b => a.2 ≤ b.2)
   last : (x.length, y.length) ∈ ms
 
+/-- What the hunk loop needs from `tgs`: the sequence is `(0,0)`, then anchors (equal lines that
+are unique in `x` and in `y`), strictly increasing in both coordinates, then `(|x|, |y|)`. -/
+structure TgsSpec (x y : List α) (s : List (Nat × Nat)) : Prop where
+  shape : ∃ mid, s = (0, 0) :: mid ++ [(x.length, y.length)] ∧ (∀ p ∈ mid, Anchor x y p) ∧
+    mid.Pairwise (fun p q => p.1 < q.1 ∧ p.2 < q.2)
+
+theorem TgsSpec.msOK {x y : List α} {s : List (Nat × Nat)} (t : TgsSpec x y s) : MsOK x y s := by
+  obtain ⟨mid, rfl, hanch, hmono⟩ := t.shape
+  have hin : ∀ p ∈ mid, p.1 < x.length ∧ p.2 < y.length := by
+    intro p hp
+    obtain ⟨a, h1, h2, _⟩ := hanch p hp
+    exact ⟨(List.getElem?_eq_some_iff.mp h1).1, (List.getElem?_eq_some_iff.mp h2).1⟩
+  refine ⟨?_, ?_, by simp⟩
+  · intro m hm
+    simp only [List.cons_append, List.mem_cons, List.mem_append, List.mem_nil_iff, or_false] at hm
+    rcases hm with rfl | hm | rfl
+    · exact ⟨Nat.zero_le _, Nat.zero_le _, Or.inr (Or.inl rfl)⟩
+    · have := hin m hm
+      exact ⟨by omega, by omega, Or.inr (Or.inr (hanch m hm))⟩
+    · exact ⟨Nat.le_refl _, Nat.le_refl _, Or.inl rfl⟩
+  · rw [List.cons_append, List.pairwise_cons]
+    refine ⟨fun _ _ => Nat.zero_le _, ?_⟩
+    rw [List.pairwise_append]
+    refine ⟨hmono.imp (fun h => by omega), by simp, ?_⟩
+    intro p hp q hq
+    simp only [List.mem_cons, List.mem_nil_iff, or_false] at hq
+    subst hq
+    have := hin p hp
+    simp only
+    omega
+
 /-- The loop invariant at an iteration boundary (DESIGN §6.2). -/
 structure Inv (x y : List α) (ms : List (Nat × Nat)) (st : St α) : Prop where
   dx : st.done.1 ≤ x.length
